@@ -129,12 +129,12 @@ class VT:
         else:
             _, _, leaf, n = BASES[self.base]
         for a in self.arrays:
-            n *= max(a, 0)
+            n *= 1 if a is None else max(a, 0)      # unknown extent: any number of entries
         return leaf, n
 
     def model(self):
         """tokens of the model's VType"""
-        arr = " ".join(str(a) for a in self.arrays)
+        arr = " ".join("?" if a is None else str(a) for a in self.arrays)
         if self.tdef is not None:
             return ("0 %d %d %s D %s" % (self.ptrs, len(self.arrays), arr, self.tdef[1].model())).replace("  ", " ")
         pname, lq, _, _ = BASES[self.base]
@@ -142,7 +142,7 @@ class VT:
 
     def decl(self, name):
         t = self.tdef[0] if self.tdef is not None else self.base
-        return "%s %s%s%s" % (t, "*" * self.ptrs, name, "".join("[%d]" % a for a in self.arrays))
+        return "%s %s%s%s" % (t, "*" * self.ptrs, name, "".join("[G3]" if a is None else "[%d]" % a for a in self.arrays))
 
 
 def gen_vt(r, tdefs, allow_tdef=True):
@@ -157,7 +157,7 @@ def gen_vt(r, tdefs, allow_tdef=True):
     ptrs = 0 if q < 0.4 else (1 if q < 0.93 else 2)
     arrays = []
     if r.random() < 0.15:
-        arrays = [r.choice([1, 2, 3, 4, 8])] + ([r.choice([2, 3])] if r.random() < 0.2 else [])
+        arrays = [r.choice([1, 2, 3, 4, 8, None])] + ([r.choice([2, 3])] if r.random() < 0.2 else [])
     if base == "void" and ptrs == 0 and td is None:
         ptrs = 1
         arrays = []
@@ -166,7 +166,7 @@ def gen_vt(r, tdefs, allow_tdef=True):
 
 def gen_source(r, nk):
     """one OKL file: typedefs and nk kernels; returns (text, [(kname, [(const, VT, pname)])])"""
-    tdefs, lines = [], []
+    tdefs, lines = [], ["const int G3 = 3;"]       # an array extent that is not a compile-time constant for the parser
     for i in range(r.choice([0, 1, 2, 3])):
         vt = gen_vt(r, tdefs)
         if vt.tdef is None and vt.base == "void" and vt.ptrs == 0:
